@@ -178,6 +178,13 @@ type runnablePipeline struct {
 	// stops for an unrelated reason gets ordinary recovery semantics again, not
 	// a stale "this was user-stopped" marker from a previous run.
 	intentionalStop atomic.Bool
+
+	// forceStopped is set by stopRunnablePipeline's force branch. A force stop
+	// must end the pipeline for good even if the run was already failing with a
+	// transient error when it arrived: the tomb only keeps the first error, so
+	// without this mark the cleanup would see the transient error and restart
+	// the pipeline (mirrors pkg/lifecycle).
+	forceStopped atomic.Bool
 }
 
 // ConnectorService can fetch and create a connector instance, and report when
@@ -508,6 +515,7 @@ func (s *Service) stopRunnablePipeline(ctx context.Context, rp *runnablePipeline
 		// (see the switch on rp.t.Err() below) classifies it as terminal and error
 		// recovery — once wired in — never auto-restarts a pipeline the user
 		// explicitly stopped.
+		rp.forceStopped.Store(true)
 		rp.t.Kill(cerrors.FatalError(pipeline.ErrForceStop))
 		return nil
 	}
@@ -1576,6 +1584,10 @@ func (s *Service) runPipeline(rp *runnablePipeline) error {
 				return err
 			}
 		default:
+			if rp.forceStopped.Load() && !cerrors.IsFatalError(err) {
+				// the run was already failing when it was force stopped
+				err = cerrors.FatalError(cerrors.Errorf("run was already failing (%v): %w", err, pipeline.ErrForceStop))
+			}
 			switch {
 			case cerrors.IsFatalError(err):
 				// Invariant 3/7: a fatal terminal error (including a user
